@@ -18,11 +18,46 @@ def load_corpus(prop):
     return out
 
 
+HOSTILE_TYPE_NAMES = ["toString", "constructor", "__proto__", "valueOf", "hasOwnProperty", "A$$B", "$&x", "T$1"]
+
+
+def map_rt(f, r):
+    t = r[0]
+    if t == "Tuple": r2 = (t, [map_rt(f, x) for x in r[1]], None if r[2] is None else map_rt(f, r[2]))
+    elif t in ("AllOf", "AnyOf"): r2 = (t, [map_rt(f, x) for x in r[1]])
+    elif t in ("Array", "Set", "Optional"): r2 = (t, map_rt(f, r[1]))
+    elif t == "Map": r2 = (t, map_rt(f, r[1]), map_rt(f, r[2]))
+    elif t == "Disc":
+        r2 = (t, [map_rt(f, x) for x in r[1]], r[2], [(k, map_rt(f, x)) for k, x in r[3]], [(k, map_rt(f, x)) for k, x in r[4]])
+    elif t == "Object": r2 = (t, [(k, map_rt(f, x)) for k, x in r[1]], [(map_rt(f, a), map_rt(f, b)) for a, b in r[2]])
+    elif t == "Meta": r2 = (t, r[1], map_rt(f, r[2]))
+    else: r2 = r
+    return f(r2)
+
+
+def hostile_names(r, env, rts):
+    """Rename some named types to names that collide with Object.prototype members or contain '$' (legal TypeScript identifiers)."""
+    used = set()
+    def note(x):
+        if x[0] == "Ref": used.add(x[1])
+        return x
+    for x in rts: map_rt(note, x)
+    names = sorted([k for k, _ in env], key=lambda k: k not in used)      # the names the validators refer to come first
+    free = [h for h in HOSTILE_TYPE_NAMES if h not in names]            # a second renaming must not produce a duplicate name
+    picks = r.sample(free, min(len(free), len(names)))
+    mapping = {n: (picks[i] if i < len(picks) and r.random() < (0.85 if n in used else 0.4) else n) for i, n in enumerate(names)}
+    f = lambda x: ("Ref", mapping.get(x[1], x[1])) if x[0] == "Ref" else x
+    return [(mapping[k], map_rt(f, b)) for k, b in env], [map_rt(f, x) for x in rts]
+
+
 def gen_cases(seed, n_rts, n_vals, depth=3, strict=False, schemaable=0.0):
     g = gen.Gen(seed, schemaable)
+    rn = __import__("random").Random(seed + 77)
     cases = []
     for i in range(n_rts):
         env, rt = g.env_and_rt(depth)
+        if env and rn.random() < 0.2:
+            env, (rt,) = hostile_names(rn, env, [rt])
         vals = [v for v in g.values_for(rt, env, n_vals, strict=strict) if not gen.has_bad_keys(v)]
         if vals:
             cases.append({"env": env, "rt": rt, "vals": vals, "source": "gen"})
